@@ -78,10 +78,11 @@ type local struct {
 	samples  []any
 	// see setWorld.algebraDone
 	algebraDone map[string]struct{}
+	cache       setCache
 }
 
 func newLocal() *local {
-	return &local{counts: map[string]int{}, distinct: map[uint64]struct{}{}, algebraDone: map[string]struct{}{}}
+	return &local{counts: map[string]int{}, distinct: map[uint64]struct{}{}, algebraDone: map[string]struct{}{}, cache: setCache{}}
 }
 
 func (l *local) viol(fp, what string, rec any) {
@@ -160,9 +161,52 @@ type setCase struct {
 	What     string `json:"what,omitempty"`
 }
 
+// mutations is a plain caller-side SetMutations value (the interface is public; Apply only reads it).
+type mutations struct{ a, d ds.Set[uint32] }
+
+func (m *mutations) WithAddedElements(e ds.Set[uint32]) ds.SetMutations[uint32]   { m.a = e; return m }
+func (m *mutations) WithDeletedElements(e ds.Set[uint32]) ds.SetMutations[uint32] { m.d = e; return m }
+func (m *mutations) AddedElements() ds.Set[uint32]                                { return m.a }
+func (m *mutations) DeletedElements() ds.Set[uint32]                              { return m.d }
+func (m *mutations) IsEmpty() bool                                                { return m.a.IsEmpty() && m.d.IsEmpty() }
+
 var setAPI = serix.NewAPI()
 
+// setCache keeps argument sets (never written by the operations under test) per worker, because
+// building a ds.Set is by far the most expensive part of a step. A cached set whose size changed was
+// mutated by the operation it was passed to – that is reported.
+type setCache map[uint64]ds.Set[uint32]
+
+func keyOf(x []uint32) (k uint64) {
+	for i, e := range x {
+		k |= uint64(e+1) << (4 * uint(i))
+	}
+	return k | uint64(len(x))<<60
+}
+
+func orderKey(x []uint32) string {
+	b := make([]byte, len(x))
+	for i, e := range x {
+		b[i] = byte('0' + e)
+	}
+	return string(b)
+}
+
+func (sc setCache) get(x []uint32) ds.Set[uint32] {
+	if sc == nil || len(x) > 12 {
+		return ds.NewSet(x...)
+	}
+	k := keyOf(x)
+	if s, ok := sc[k]; ok && s.Size() == len(x) {
+		return s
+	}
+	s := ds.NewSet(x...)
+	sc[k] = s
+	return s
+}
+
 type setWorld struct {
+	cache setCache
 	s     ds.Set[uint32]
 	order []uint32 // model: live elements in first-insertion order
 	uni   int
@@ -201,7 +245,7 @@ func (w *setWorld) arg(o sop) ds.ReadableSet[uint32] {
 	case "readonly":
 		return w.s.ReadOnly()
 	}
-	return ds.NewSet(o.A...)
+	return w.cache.get(o.A)
 }
 
 // apply runs o on the real set and the model; full==true additionally runs all queries.
@@ -253,8 +297,17 @@ func (w *setWorld) apply(o sop, full bool) (string, string) {
 				bad("returned-set", "DeleteAll(%v) on %v returned %v, elements actually removed: %v", argElems, before, got, want)
 			}
 		case "Apply", "Compute":
-			mut := ds.NewSetMutations[uint32]().WithAddedElements(ds.NewSet(o.A...)).WithDeletedElements(ds.NewSet(o.D...))
+			argA, argD := w.cache.get(o.A), w.cache.get(o.D)
+			var mut ds.SetMutations[uint32] = &mutations{a: argA, d: argD}
+			if w.algebraDone == nil { // long random histories and replays use hive.go's own SetMutations value
+				mut = ds.NewSetMutations[uint32]().WithAddedElements(argA).WithDeletedElements(argD)
+			}
 			var ret ds.SetMutations[uint32]
+			defer func() {
+				if argA.Size() != len(o.A) || argD.Size() != len(o.D) {
+					bad("argument-mutated", "%s changed the mutation sets it was given", o.K)
+				}
+			}()
 			if o.K == "Apply" {
 				ret = w.s.Apply(mut)
 			} else {
@@ -403,6 +456,13 @@ func (w *setWorld) queries(bad func(kind, f string, a ...any)) {
 		if e, ok := s.Any(); ok != (len(m) > 0) || (ok && !contains(m, e)) {
 			bad("any", "Any()=(%d,%v) on %v", e, ok, m)
 		}
+		if w.algebraDone != nil {
+			k := w.lastClass + orderKey(m)
+			if _, done := w.algebraDone[k]; done {
+				return
+			}
+			w.algebraDone[k] = struct{}{}
+		}
 		it := s.Iterator()
 		var iv []uint32
 		for n := 0; it.HasNext() && n < len(m)+3; n++ {
@@ -434,13 +494,6 @@ func (w *setWorld) queries(bad func(kind, f string, a ...any)) {
 		if !eqSlice(ev.ToSlice(), wantEv) {
 			bad("filter", "Filter(even)=%v on %v", ev.ToSlice(), m)
 		}
-		if w.algebraDone != nil {
-			k := w.lastClass + fmt.Sprint(m)
-			if _, done := w.algebraDone[k]; done {
-				return
-			}
-			w.algebraDone[k] = struct{}{}
-		}
 		// algebra against every subset of the universe (as argument sets in ascending order)
 		for mask := 0; mask < 1<<w.uni; mask++ {
 			if w.uni > 4 && (mask*7+w.qsalt)%8 != 0 { // large universe: an eighth of the subsets per step, rotating
@@ -452,7 +505,7 @@ func (w *setWorld) queries(bad func(kind, f string, a ...any)) {
 					x = append(x, uint32(e))
 				}
 			}
-			xs := ds.NewSet(x...)
+			xs := w.cache.get(x)
 			hasAll := true
 			var inter []uint32
 			for _, e := range x {
@@ -482,9 +535,10 @@ func (w *setWorld) queries(bad func(kind, f string, a ...any)) {
 }
 
 // runSetSeq replays ops; checks with all queries from step checkFrom on.
-func runSetSeq(uni int, ops []sop, checkFrom int, algebraDone map[string]struct{}) (step int, fp, what string, w *setWorld) {
+func runSetSeq(uni int, ops []sop, checkFrom int, algebraDone map[string]struct{}, cache setCache) (step int, fp, what string, w *setWorld) {
 	w = newSetWorld(uni)
 	w.algebraDone = algebraDone
+	w.cache = cache
 	for i, o := range ops {
 		if fp, what = w.apply(o, i >= checkFrom); fp != "" {
 			return i, fp, what, w
@@ -540,7 +594,7 @@ func setAlphabet(uni int) []sop {
 }
 
 func (l *local) setOne(uni int, ops []sop) bool {
-	step, fp, what, w := runSetSeq(uni, ops, len(ops)-1, l.algebraDone)
+	step, fp, what, w := runSetSeq(uni, ops, len(ops)-1, l.algebraDone, l.cache)
 	if step < len(ops)-1 {
 		return false
 	}
@@ -551,7 +605,7 @@ func (l *local) setOne(uni int, ops []sop) bool {
 	for _, o := range ops {
 		h = mixHash(h, o.class())
 	}
-	h = mixHash(h, fmt.Sprint(w.order))
+	h = mixHash(h, orderKey(w.order))
 	l.distinct[h] = struct{}{}
 	if fp != "" {
 		ss := make([]string, len(ops))
@@ -629,6 +683,7 @@ func randSetOp(rng *rand.Rand, uni int) sop {
 
 func (l *local) setRandom(rng *rand.Rand, uni, length int) {
 	w := newSetWorld(uni)
+	w.cache = l.cache
 	var ops []sop
 	var h uint64
 	for i := 0; i < length; i++ {
@@ -650,7 +705,7 @@ func (l *local) setRandom(rng *rand.Rand, uni, length int) {
 			return
 		}
 	}
-	l.distinct[mixHash(h, fmt.Sprint(w.order))] = struct{}{}
+	l.distinct[mixHash(h, orderKey(w.order))] = struct{}{}
 	if len(l.samples) == 0 {
 		ss := make([]string, 0, 12)
 		for _, o := range ops[:12] {
@@ -687,6 +742,22 @@ type kv struct {
 	v uint64
 }
 
+type lazyStr func() string
+
+func (l lazyStr) String() string { return l() }
+
+func eqKV(a, b []kv) bool {
+	if len(a) != len(b) {
+		return false
+	}
+	for i := range a {
+		if a[i] != b[i] {
+			return false
+		}
+	}
+	return true
+}
+
 type mapWorld struct {
 	m     *orderedmap.OrderedMap[uint32, uint64]
 	model []kv
@@ -713,7 +784,8 @@ func (w *mapWorld) apply(o mop, full bool) (fp, what string) {
 			fp, what = o.K+"/"+kind, fmt.Sprintf(f, a...)
 		}
 	}
-	before := fmt.Sprint(w.model)
+	beforeModel := append([]kv{}, w.model...)
+	before := lazyStr(func() string { return fmt.Sprint(beforeModel) })
 	p := try(func() {
 		switch o.K {
 		case "Set":
@@ -784,11 +856,11 @@ func (w *mapWorld) apply(o mop, full bool) (fp, what string) {
 	for i, e := range w.model {
 		rev[len(w.model)-1-i] = e
 	}
-	if fmt.Sprint(f) != fmt.Sprint(w.model) {
+	if !eqKV(f, w.model) {
 		bad("foreach-order", "after %s on %s: ForEach visits %v, model %v", o, before, f, w.model)
 		return
 	}
-	if fmt.Sprint(r) != fmt.Sprint(rev) {
+	if !eqKV(r, rev) {
 		bad("foreachreverse-order", "after %s on %s: ForEachReverse visits %v, model %v", o, before, r, rev)
 		return
 	}
@@ -865,7 +937,7 @@ func (l *local) mapOne(uni int, ops []mop) bool {
 	for i, e := range w.model {
 		ks[i] = e.k
 	}
-	l.distinct[mixHash(h, "map"+fmt.Sprint(ks))] = struct{}{}
+	l.distinct[mixHash(h, "map"+orderKey(ks))] = struct{}{}
 	if fp != "" {
 		ss := make([]string, len(ops))
 		for i, o := range ops {
